@@ -100,6 +100,8 @@ def parts(tier):
              quick=90, thorough=800),
         Part('gpu_shares_blocked_gpus', schedgen.histories(max_ops=20 if not T else 40, big=T, scattered=True, app=False,
                                                            light=True, gpu_focus=True), quick=40, thorough=300),
+        Part('colocate_tags', schedgen.histories(max_ops=25 if not T else 50, big=T, scattered=True, app=False,
+                                                 colo=True), quick=60, thorough=400),
         Part('priority', prio_scenarios(), quick=120, thorough=500),
         Part('big_wait_pools', big_pools(), quick=50, thorough=400),
     ]
